@@ -250,6 +250,10 @@ class Facts(Walker):
                 for like in ("np.zeros_like(", "np.empty_like(", "np.ones_like(", "np.full_like("):
                     while inner.startswith(like) and inner.endswith(")") and "," not in inner[len(like):-1].split("(")[0]:
                         inner = inner[len(like):-1]
+                # len(np.zeros(X.shape)) / np.empty / np.ones of another array's shape: that array's length
+                for alloc in ("np.zeros(", "np.empty(", "np.ones("):
+                    if inner.startswith(alloc) and inner.endswith(".shape)") and inner.count("(") == inner.count(")"):
+                        inner = inner[len(alloc):-len(".shape)")]
                 return "len(%s)" % inner
             if f.id in ("float", "abs") and args:
                 return self.vn(args[0], st) if f.id == "float" else "abs(%s)" % self.vn(args[0], st)
